@@ -204,9 +204,10 @@ def generalizedAffineImageVar (g : Grid) (v : Nat) (relsym : Nat) (e : LinExpr) 
   if den = 0 then { g := g, thrown := true }
   else if g.spaceDim < e.spaceDim ∨ g.spaceDim < v + 1 then { g := g, thrown := true }
   else if relsym = NOT_EQUAL then { g := g, thrown := true }
+  -- a13dde6: the argument check comes before the test for the marked-empty grid
+  else if relsym ≠ EQUAL ∧ modulus ≠ 0 then { g := g, thrown := true }
   else if g.markedEmpty then { g := g }
-  else if relsym ≠ EQUAL then
-    if modulus ≠ 0 then { g := g, thrown := true } else relsymLine g v
+  else if relsym ≠ EQUAL then relsymLine g v
   else
     let r := affineImage g v e den
     if r.thrown then r
@@ -308,13 +309,13 @@ def relWithNewDim (g : Grid) (lhs : LinExpr) (first second : LinExpr) (m : Int) 
 def generalizedAffineImageLR (g : Grid) (lhs : LinExpr) (relsym : Nat) (rhs : LinExpr) (modulus : Int) : R :=
   if g.spaceDim < lhs.spaceDim ∨ g.spaceDim < rhs.spaceDim then { g := g, thrown := true }
   else if relsym = NOT_EQUAL then { g := g, thrown := true }
+  -- a13dde6: the argument check comes before the test for the marked-empty grid
+  else if relsym ≠ EQUAL ∧ modulus ≠ 0 then { g := g, thrown := true }
   else if g.markedEmpty then { g := g }
   else if relsym ≠ EQUAL then
-    if modulus ≠ 0 then { g := g, thrown := true }
-    else
-      let g1 := if !g.generatorsAreUpToDate then (minimize g).1 else g
-      if g1.markedEmpty then { g := g1 }
-      else (varsOf lhs).foldl (fun (r : R) v => if r.thrown then r else addGridGenerator r.g (gridLineVar v)) { g := g1 }
+    let g1 := if !g.generatorsAreUpToDate then (minimize g).1 else g
+    if g1.markedEmpty then { g := g1 }
+    else (varsOf lhs).foldl (fun (r : R) v => if r.thrown then r else addGridGenerator r.g (gridLineVar v)) { g := g1 }
   else
     let m := absI modulus
     let lhsDim := lastNonzero lhs
@@ -331,13 +332,13 @@ def generalizedAffineImageLR (g : Grid) (lhs : LinExpr) (relsym : Nat) (rhs : Li
 def generalizedAffinePreimageLR (g : Grid) (lhs : LinExpr) (relsym : Nat) (rhs : LinExpr) (modulus : Int) : R :=
   if g.spaceDim < lhs.spaceDim ∨ g.spaceDim < rhs.spaceDim then { g := g, thrown := true }
   else if relsym = NOT_EQUAL then { g := g, thrown := true }
+  -- a13dde6: the argument check comes before the test for the marked-empty grid
+  else if relsym ≠ EQUAL ∧ modulus ≠ 0 then { g := g, thrown := true }
   else if g.markedEmpty then { g := g }
   else if relsym ≠ EQUAL then
-    if modulus ≠ 0 then { g := g, thrown := true }
-    else
-      let g1 := if !g.generatorsAreUpToDate then (minimize g).1 else g
-      if g1.markedEmpty then { g := g1 }
-      else (varsOf lhs).foldl (fun (r : R) v => if r.thrown then r else addGridGenerator r.g (gridLineVar v)) { g := g1 }
+    let g1 := if !g.generatorsAreUpToDate then (minimize g).1 else g
+    if g1.markedEmpty then { g := g1 }
+    else (varsOf lhs).foldl (fun (r : R) v => if r.thrown then r else addGridGenerator r.g (gridLineVar v)) { g := g1 }
   else
     let m := absI modulus
     let lhsDim := lastNonzero lhs
